@@ -5,6 +5,7 @@ import os
 
 ROOT = os.path.dirname(os.path.dirname(os.path.abspath(__file__)))
 TECH = 'machine-checked proof in Coq over a model regenerated from source + differential correspondence'
+TECH_OTHER = 'dual-build differential execution + syntactic check that the regenerated Coq models do not depend on the std feature'
 NOTE = ('Trusted: Coq 8.16.1 kernel and vm_compute; translator tools/rs2v and the hand-written glue models (both cross-checked on '
         'every run by the correspondence against the real crate through harness/); usize = 64 bit; no axioms declared. ')
 
@@ -46,6 +47,21 @@ CLAIMS = {
             'set_verifier is a no-op, the loaded program was accepted by the verifier in force, executions are pure. The model is tied to the code by '
             'the history correspondence: every history of length <= 2 over a 16-op alphabet from 4 initial programs, plus random histories on all 4 VM kinds.',
             'lib.rs is hand-modelled: the tie is the correspondence (tie B) only; programs/verifiers abstract in the theorem.'),
+    'C18': ('proof', 'PARTIAL. Theorem C18_atomic_sum: for every number of threads, addends and interleaving, indivisible adds leave init + sum (mod 2^w) -- no '
+            'update lost; C18_split_rmw_loses: a load/store pair loses updates (the property discriminates); C18_engines_use_atomic_rmw: regenerated from '
+            'the three sources, every engine\'s XADD arm uses fetch_add / lock add / atomic_rmw add; the single-thread effect and the alignment error are the '
+            'xadd arms of C01/C02. Concurrent runs (all engine mixes) are supporting evidence and the failing-schedule search.',
+            'Indivisibility of the hardware/LLVM/Cranelift primitive is trusted, not proved.'),
+    'C19': ('proof', 'Theorems C19_*: gather_bytes, the byte count returned by bpf_trace_printf (= 29 + hex digits, stdout captured in the correspondence) and '
+            'the range reduction of rand are regenerated from helpers.rs and proved for all arguments (no panic; min <= r <= max); memfrob involution and '
+            'strcmp zero-iff on byte-string models. PARTIAL for sqrti: modelled with Flocq binary64 and compared on a grid with the code and with Z.sqrt below '
+            '2^52; the exactness statement is not proved.',
+            'Flocq\'s development depends on the standard-library axioms sig_forall_dec, sig_not_dec, functional_extensionality_dep, classic (sqrti sample evaluation only).'),
+    'C20': ('other', 'No Coq theorem of its own: the models of C01/C02/C05/C06/C17 are regenerated from source regions checked on every run to contain no code '
+            'selected by the std feature, so their theorems describe both builds; the cfg-dependent glue is compared by running a default build and a '
+            '--no-default-features build of the harness on the corpora of C01/C03/C06/C13-C15 (JIT from caller-supplied executable memory) and requiring '
+            'identical transcripts.',
+            'Helpers that exist only with std are outside the comparison.'),
     'C17': ('proof', 'Theorems C17_* (props/C17.v) prove, for all field values and all program positions, that the encoders/decoder/builder serializer '
             'regenerated from src/ebpf.rs and src/insn_builder.rs equal the specified slot layout and that the layout is a bijection; the '
             'correspondence run ties model and spec to the real crate.', 'Builder constructors -> opcode byte is tied by exhaustive enumeration of constructors.'),
@@ -73,7 +89,7 @@ def main():
                                 "evidence_file": "/verif/evidence/%s.json" % pid, "replay_cmd_template": "bin/check %s --replay {path}" % pid,
                                 "engine": "coq-proof+correspondence",
                                 "level_claimed": {"category": lvl, "text": text, "design_ref": "4 (%s)" % pid},
-                                "level_note": NOTE + extra, "technique": TECH})
+                                "level_note": NOTE + extra, "technique": TECH_OTHER if lvl == 'other' else TECH})
         else:
             m['not_applicable'].append({"property_id": pid, "reason": PENDING})
     json.dump(m, open(os.path.join(ROOT, 'MANIFEST.json'), 'w'), indent=1)
